@@ -359,6 +359,8 @@ def run(ctx):
                 if not (m1 and m2 and m1.group(1) == m2.group(1)):
                     ctx.report(r_tgt, "start-end", "the TextPositionSelector takes start/end from `%s` / `%s`, not from begin()/end() of one text selection" % tuple(args[1:3] if len(args) > 2 else ("?", "?")), o.file, n["l"])
 
+    ns_rule(ctx, syn)
+
     # ---------------- SEP (separator / bracket typestate on the string accumulators)
     r_sep = ctx.rule("C17.SEP", "on every path through the exporter, members and elements are separated by exactly one comma, brackets are balanced and every function returns a complete JSON value (or member list)")
     one = {}
@@ -386,3 +388,73 @@ def run(ctx):
         ctx.floor(r_sep, len(an.contexts["output_selector"]), 3, "calling contexts of output_selector")
     for (fn, kind), (line, c) in sorted(errs.items()):
         ctx.report(r_sep, "%s:%s" % (fn, kind), "%s can produce malformed JSON: %s at line %s (calling context: %s)" % (fn, kind.replace("-", " "), line, c), one[fn].file, line)
+
+
+def ns_rule(ctx, syn):
+    """namespace compaction is reversible: a key IRI is written as `prefix:local` only if the namespace IRI
+    declared for `prefix` in the exported @context, followed by `local`, is that key IRI again"""
+    import formula
+    from formula import Evaluator, Unknown, Panic, StructVal
+    from props.c10 import closure_call
+    r = ctx.rule("C17.NS", "uri_to_namespace compacts an IRI to prefix:local only when <declared namespace IRI> + local is the original IRI")
+    fl = [f for f in syn.fns if f.name == "uri_to_namespace" and f.file == FILE and f.body is not None]
+    if len(fl) != 1:
+        ctx.anchor_missing(r, "fn WebAnnoConfig::uri_to_namespace")
+        return
+    f = fl[0]
+    ctx.functions_analysed.add(f.qual)
+    hooks = {}
+    hooks["call:Cow::Owned"] = lambda ev, recv, args, node, env: args[0]
+    hooks["call:Cow::Borrowed"] = lambda ev, recv, args, node, env: args[0]
+    hooks["iter"] = lambda ev, recv, args, node, env: recv if isinstance(recv, list) else NotImplemented
+    hooks["strip_prefix"] = lambda ev, recv, args, node, env: (formula.some(recv[len(args[0]):]) if recv.startswith(args[0]) else None) if isinstance(recv, str) and isinstance(args[0], str) else NotImplemented
+    hooks["strip_suffix"] = lambda ev, recv, args, node, env: (formula.some(recv[:len(recv) - len(args[0])]) if recv.endswith(args[0]) else None) if isinstance(recv, str) and isinstance(args[0], str) else NotImplemented
+
+    def trimmer(side):
+        def h(ev, recv, args, node, env):
+            if not isinstance(recv, str):
+                return NotImplemented
+            a = args[0]
+            pred = (lambda ch: closure_call(ev, a, [ch], env)) if isinstance(a, tuple) and a and a[0] == "closure" else (lambda ch: ch == a if isinstance(a, str) and len(a) == 1 else (ch in a if isinstance(a, (list, str)) else False))
+            s_ = recv
+            if side in ("start", "both"):
+                while s_ and pred(s_[0]):
+                    s_ = s_[1:]
+            if side in ("end", "both"):
+                while s_ and pred(s_[-1]):
+                    s_ = s_[:-1]
+            return s_
+        return h
+    hooks["trim_end_matches"] = trimmer("end")
+    hooks["trim_start_matches"] = trimmer("start")
+    hooks["trim_matches"] = trimmer("both")
+
+    def fmt_(ev, node, env):
+        a = node.get("args") or []
+        out = a[0]["v"]
+        for x in a[1:]:
+            out = out.replace("{}", str(ev.eval(x, env)), 1)
+        return out
+    hooks["macro:format"] = fmt_
+    spaces = [[("http://ex.org/ns/", "ex")], [("http://ex.org/ns#", "ex")], [("http://ex.org/ns", "ex")], [("http://ex.org/ns/", "ex"), ("http://ex.org/ns/sub/", "sub")]]
+    iris = ["http://ex.org/ns/label", "http://ex.org/ns#label", "http://ex.org/ns2/label", "http://ex.org/nslabel", "http://ex.org/ns", "http://ex.org/ns/", "http://ex.org/ns/sub/x", "http://other.org/x", "label"]
+    n = 0
+    for ns in spaces:
+        for iri in iris:
+            n += 1
+            try:
+                got = Evaluator(hooks=hooks).run_body(f.body, {"self": StructVal("WebAnnoConfig", {"context_namespaces": list(ns)}), "s": iri})
+            except (Unknown, Panic) as e:
+                ctx.report(r, "unevaluated", "uri_to_namespace could not be evaluated (%s) on %r with namespaces %s: that compaction is reversible is not established" % (e, iri, ns), f.file, f.line)
+                return
+            r.hit("%s|%s" % (ns[0][0], iri), sample={"namespaces": ns, "iri": iri, "written_as": got} if iri.endswith("ns2/label") or iri.endswith("ns/label") else None)
+            if got == iri:
+                continue
+            ok_ = False
+            for uri, pre in ns:
+                if isinstance(got, str) and got.startswith(pre + ":") and uri + got[len(pre) + 1:] == iri:
+                    ok_ = True
+            if not ok_:
+                ctx.report(r, "irreversible", "with the namespace(s) %s the key IRI %r is written as %r, which expands through the exported @context to a different IRI: the body member no longer names the annotation's key" % (ns, iri, got), f.file, f.line, {"namespaces": ns, "iri": iri, "written": got})
+                return
+    ctx.floor(r, n, 30, "compaction evaluations")
